@@ -18,6 +18,11 @@ CHECKS = {
          "Same input spaces as C11. The compared quantity is tau = M*N/ESS (ESS itself is ill-conditioned near tau=0). Half-lengths 99/100/101/128/129/150 exercise both autocovariance algorithms on the same kind of series, paddings 256..8192 are crossed; affine, permutation and time-reversal invariance are checked on members whose cut is unambiguous; sanity bands on fixed iid / AR(1) members.",
          "Geyer's cut is discontinuous: pair sums within 2e-5 of zero make the reference set-valued (counted in the evidence). Bands are non-generalising.",
          "DESIGN.md §3 C12"),
+ "C13": ("E3/E4", "model_checking",
+         "breadth/depth-first exploration of ALL tracker update histories over a 3-letter value alphabet (prefix tree over the real, cloned trackers) with batch-statistics and EMA recurrence oracles after every update; enumerated long histories",
+         "Every sequence of updates over values {0,1,3} for 2 chains x 1..2 params (and 3 chains x 1) up to depth 3-4 (quick, 2.3e6 histories) / 4-6 (thorough, 4.7e7) is applied to the real ChainTracker / MultiChainTracker; after EVERY update count, mean, unbiased variance, the EMA recurrence p_k = 0.99 p_{k-1} + 0.01 [moved], collect_rhat vs the classical formula on the trackers' own stats (1e-5) and vs MultiChainTracker::rhat and the batch truth are checked. Long MH-like histories (to 5000 updates, 16 chains, 8 params, f32/f64/i32/u8) are enumerated families.",
+         "The EMA's initial value and the multi-chain combination of indicators are left open by the statement (only range/monotonicity demanded). f32 running moments: tolerance c*eps32*max|x|^2*(1+ln n).",
+         "DESIGN.md §3 C13"),
  "C18": ("E4", "model_checking",
          "bounded-exhaustive input enumeration of the real helpers against purity/prefix/shape oracles",
          "Every (n,d) of the statement's own bounded domain (thorough: the full 0..256 square; quick: an 8x8 sub-grid) x 5 seeds x f32/f64 is evaluated on the real helpers; shape, finiteness, purity, init_det==seed 42, the prefix property and seed sensitivity are decided on each. The enumeration is complete within the stated grid, which is the right level for a pure function of three small integers.",
